@@ -13,6 +13,8 @@
   sound-seed         the sound end starts from a value for which the invariant holds: 0 for rho (with cdp_delta(0, .) = 0),
                      rho + 2 sqrt(rho log(1/delta)) for eps (Bun-Steinke 2016, Prop. 1.3)
   clamp              cdp_delta returns min(delta, 1)
+  search-termination a search leaves its loop early only at a fixed point of the bisection (midpoint == an end of the bracket), never on
+                     an absolute width tolerance
   early-exit         the only other returns are the tabled degenerate cases under exact tests: rho == 0 (delta 0 / eps 0) and delta >= 1
 Not decided: monotonicity, mutual inversion within tolerance, comparison with the exact Gaussian delta (numeric).
 """
@@ -156,6 +158,7 @@ def check_cdp_delta(ctx, fi):
     ctx.analysed(fi)
     rho, eps = fi.params[0], fi.params[1]
     S = Search(fi)
+    check_termination(ctx, fi, S)
     alpha = S.MID
     atoms = Atoms()
     ev = SymEval({}, atoms)
@@ -263,10 +266,60 @@ def early_exits(ctx, fi, S, allowed_tests, what):
                construct='early result `%s` when `%s%s`' % (U(e), '' if pol else 'not ', U(t) if t is not None else 'always'))
 
 
+def check_termination(ctx, fi, S):
+    """a search may leave its loop early only at a floating-point fixed point of the bisection (the midpoint coincides with an end of
+    the bracket); a width / tolerance test stops while the answer can still be far (relative to its size) from the bracket ends"""
+    from ..normalise import Defs, expand
+    lo_hi = {S.true_var, S.false_var}
+    guarded = set()
+    pars = []
+    for n in ast.walk(S.loop):
+        if isinstance(n, ast.If) and any(isinstance(x, ast.Break) for x in n.body):
+            pars.append(n)
+            guarded |= {id(x) for x in n.body if isinstance(x, ast.Break)}
+    if any(isinstance(b, ast.Break) and id(b) not in guarded for b in ast.walk(S.loop)):
+        raise AnalysisError('%s: unconditional / unrecognised early exit from the search loop' % fi.qualname)
+    for par in pars:
+        before = []
+        for st in S.loop.body:
+            if st is par or par in list(ast.walk(st)):
+                break
+            before.append(st)
+        t = expand(par.test, Defs(before), keep=tuple(lo_hi))
+        parts = t.values if isinstance(t, ast.BoolOp) and isinstance(t.op, ast.Or) else [t]
+        mid_t = T(S.mid_expr)
+        fixed = True
+        tol = False
+        for p_ in parts:
+            ok = False
+            if isinstance(p_, ast.Compare) and len(p_.ops) == 1:
+                l, r = T(p_.left), T(p_.comparators[0])
+                op = type(p_.ops[0])
+                sides = {l, r}
+                if mid_t in sides and (sides - {mid_t}) <= lo_hi and op in (ast.LtE, ast.GtE, ast.Eq):
+                    ok = True
+                if isinstance(p_.left, ast.BinOp) and isinstance(p_.left.op, ast.Sub) and {T(p_.left.left), T(p_.left.right)} == lo_hi \
+                        and isinstance(p_.comparators[0], ast.Constant):
+                    tol = True
+                if isinstance(p_.left, ast.Call) and U(p_.left.func) in ('abs', 'math.fabs', 'np.abs') and isinstance(p_.comparators[0], ast.Constant):
+                    tol = True
+            fixed = fixed and ok
+        if fixed:
+            ctx.ob('search-termination', fi, par, True, 'early exit only when the midpoint coincides with an end of the bracket (fixed point): `%s`' % U(par.test),
+                   construct='early exit of the search in ' + fi.name)
+        elif tol:
+            ctx.ob('search-termination', fi, par, False,
+                   'the search stops on an absolute width / tolerance test `%s`: for small answers the bracket is still wide relative to the '
+                   'answer (the conversions stop being tight and mutually inverse)' % U(par.test), construct='early exit of the search in ' + fi.name)
+        else:
+            raise AnalysisError('%s: early exit `%s` of the search loop is neither a fixed-point nor a tolerance test' % (fi.qualname, U(par.test)))
+
+
 def check_inverse(ctx, fi, cd, searched, kind):
     """cdp_eps (searched=1: eps is the 2nd argument of cdp_delta) / cdp_rho (searched=0)"""
     ctx.analysed(fi)
     S = Search(fi)
+    check_termination(ctx, fi, S)
     atoms = Atoms()
     ev = SymEval({}, atoms)
     other_param = fi.params[0]       # rho for cdp_eps, eps for cdp_rho
